@@ -1,7 +1,7 @@
 (* Executable glue for the C02/C01 correspondence (Cartesian grids). *)
 From Coq Require Import QArith Qabs ZArith List Arith Bool.
 Import ListNotations.
-From PD Require Import Model.Grid Model.MergeLoop Model.Locate Model.Overlap Model.OverlapCases.
+From PD Require Import Model.Grid Model.MergeLoop Model.Locate Model.Overlap Model.OverlapCases Model.Label.
 Local Open Scope Q_scope.
 
 Record loc_case := {
@@ -38,7 +38,13 @@ Fixpoint cands_close (g : grid) (a b : list (list Q * Q)) : bool :=
   | _, _ => false
   end.
 
+(* scipy's label image equals the executable labelling of its own mask (Model/Label.v): by C02_label_unique this
+   is the same as scipy meeting its specification *)
+Definition label_agree (g : grid) (lab : list nat) : bool :=
+  list_eqb (label (gshape g) (map (fun l => Nat.ltb 0 l) lab)) lab.
+
 Definition loc_agree (c : loc_case) : bool :=
+  label_agree (lc_grid c) (lc_lab c) &&
   cands_close (lc_grid c) (candidates (lc_grid c) (lc_lab c)) (lc_cands c) &&
   list_eqb (ro (tbl (lc_D c)) (vec (lc_rad c)) 0 (seq 0 (length (lc_rad c)))) (lc_out c).
 
